@@ -166,6 +166,6 @@ class MapPacket(Packet):
         UnsignedByte.send(self.width, packet_buffer)
         if self.width:
             UnsignedByte.send(self.height, packet_buffer)
-            UnsignedByte.send(self.offset[0], packet_buffer)  # x
-            UnsignedByte.send(self.offset[1], packet_buffer)  # z
+            Byte.send(self.offset[0], packet_buffer)  # x
+            Byte.send(self.offset[1], packet_buffer)  # z
             VarIntPrefixedByteArray.send(self.pixels, packet_buffer)
